@@ -150,7 +150,7 @@ const UNKNOWN_DIRS: &[&str] = &["nope", "skip", "include", "deprecated"];
 pub const VAR_POOL: &[&str] = &["a", "b", "c", "d"];
 const STR_POOL: &[&str] = &["", "x", "hello world", "RED", "1", "é\"q\\"];
 const ENUM_POOL: &[&str] = &["RED", "GREEN", "SIT", "BROWN", "NOPE", "x"];
-const FLOATS: &[&str] = &["1.5", "0.0", "-0.0", "-2.25", "1e3", "3.0"];
+const FLOATS: &[&str] = &["1.5", "0.0", "-0.0", "-2.25", "1e3", "3.0", "0.3", "0.30000000000000004", "1e-20", "2e-20", "1e-300"];
 const INTS: &[i64] = &[0, 1, -1, 5, 42, 2147483647, 2147483648, -2147483648, -2147483649, 9007199254740993];
 
 pub struct Gen<'a> {
